@@ -376,6 +376,61 @@ func genC04() {
 		l.p("def spendAccountLockTimeTable : List (List String × String × String) := [%s]", strings.Join(out, ", "))
 	}
 
+	// --- RenewAccount: spendWitnessType := A; if <cond> { spendWitnessType = B } ---------
+	{
+		fd := findFunc(acct, "manager.RenewAccount")
+		dflt, cond, thn := "", "", ""
+		if fd == nil {
+			fail("C04: manager.RenewAccount not found")
+		} else {
+			for i, st := range fd.Body.List {
+				as, ok := st.(*ast.AssignStmt)
+				if !ok || as.Tok != token.DEFINE || len(as.Lhs) != 1 || exprString(as.Lhs[0]) != "spendWitnessType" {
+					continue
+				}
+				dflt = exprString(as.Rhs[0])
+				if i+1 < len(fd.Body.List) {
+					if ifs, ok := fd.Body.List[i+1].(*ast.IfStmt); ok && ifs.Else == nil && len(ifs.Body.List) == 1 {
+						if as2, ok := ifs.Body.List[0].(*ast.AssignStmt); ok && len(as2.Lhs) == 1 &&
+							exprString(as2.Lhs[0]) == "spendWitnessType" {
+							cond = strings.Join(strings.Fields(exprString(ifs.Cond)), " ")
+							thn = exprString(as2.Rhs[0])
+						}
+					}
+				}
+			}
+			if dflt == "" || cond == "" || thn == "" {
+				fail("C04: RenewAccount: spendWitnessType rule not recognised")
+			}
+		}
+		l.p("/-- RenewAccount: (default witness type, condition, witness type if the condition holds) -/")
+		l.p("def renewWitnessTypeRule : String × String × String := (%q, %q, %q)", dflt, cond, thn)
+	}
+
+	// --- which expression chooses the witness type in each account-spending RPC ----------
+	{
+		var rows []string
+		for _, fn := range []string{"CloseAccount", "DepositAccount", "WithdrawAccount", "RenewAccount"} {
+			fd := findFunc(acct, "manager."+fn)
+			src := ""
+			if fd != nil {
+				ast.Inspect(fd.Body, func(n ast.Node) bool {
+					as, ok := n.(*ast.AssignStmt)
+					if ok && as.Tok == token.DEFINE && len(as.Lhs) == 1 && exprString(as.Lhs[0]) == "spendWitnessType" && src == "" {
+						src = exprString(as.Rhs[0])
+					}
+					return true
+				})
+			}
+			if src == "" {
+				fail("C04: %s: spendWitnessType definition not found", fn)
+			}
+			rows = append(rows, fmt.Sprintf("(%q, %q)", fn, src))
+		}
+		l.p("/-- the expression that defines `spendWitnessType` in each account-spending manager method -/")
+		l.p("def spendWitnessTypeSource : List (String × String) := [%s]", strings.Join(rows, ", "))
+	}
+
 	// --- createSpendTx: the account input literal sets no Sequence ------------
 	{
 		fd := findFunc(acct, "manager.createSpendTx")
